@@ -103,16 +103,17 @@ def item_token(it, stats=None):
     return "%d/%d/%d/%d/%s/%s/%s" % (it["desc"], sk, ig, it["sdesc"], it["meta"], af, val)
 
 
-def load_skipped(it):
+def load_skipped(it, nxt=None):
     """does the loader see this node as skipped when its cursor reaches it?  A delayed replication descriptor is still
-    unexpanded then (its factor follows it) unless it lies in the body of a replication with count zero."""
+    unexpanded then (its factor follows it) unless it lies in the body of a replication with count zero; a delayed
+    REPETITION (factor 0 31 011 / 0 31 012: the body occurs once in the data) is expanded with the template."""
     fl = it["flags"]
-    if F(it["desc"]) == 1 and Y(it["desc"]) == 0:
+    if F(it["desc"]) == 1 and Y(it["desc"]) == 0 and not (nxt is not None and nxt["desc"] in (31011, 31012)):
         return bool(fl & SKIPPED) and not (fl & EXPANDED)
     return bool(fl & SKIPPED)
 
 
-def node_token(it):
+def node_token(it, nxt=None):
     v = it["val"]
     if v == "-":
         vt = "n"
@@ -124,7 +125,7 @@ def node_token(it):
         vt = "d"
     else:
         return None
-    return "%d/%d/%s" % (it["desc"], 1 if load_skipped(it) else 0, vt)
+    return "%d/%d/%s" % (it["desc"], 1 if load_skipped(it, nxt) else 0, vt)
 
 
 def dump_request(msgs):
@@ -149,8 +150,8 @@ def load_request(variant, h0, msgs, text_hex):
         toks.append(str(len(m["O"])))
         for sub in m["O"]:
             toks.append(str(len(sub)))
-            for it in sub:
-                t = node_token(it)
+            for j, it in enumerate(sub):
+                t = node_token(it, sub[j + 1] if j + 1 < len(sub) else None)
                 if t is None:
                     return None
                 toks.append(t)
@@ -712,7 +713,7 @@ def run(rep, tier, seed, replay=None):
                     if len(msubs) != len(m["L"]):
                         bad = "dataset %d: %d subsets, model %d" % (i + 1, len(m["L"]), len(msubs)); break
                     for s, ((vals, nrest), sl) in enumerate(zip(msubs, m["L"])):
-                        tgt = [it for it in sl if not load_skipped(it)]
+                        tgt = [it for j, it in enumerate(sl) if not load_skipped(it, sl[j + 1] if j + 1 < len(sl) else None)]
                         if len(vals) > len(tgt):
                             bad = "dataset %d subset %d: model consumed %d value lines, library has %d nodes" % (i + 1, s + 1, len(vals), len(tgt)); break
                         for mv, it in zip(vals, tgt):
